@@ -635,6 +635,9 @@ func GenExec(t *rapid.T, f Features) *ExecCase {
 			g.noCalls = true
 			cv.Init = g.constExprOf(ct, 2)
 			g.noCalls = false
+			if _, bare := cv.Init.(*VarRef); bare && f.off("const.alias") {
+				cv.Init = g.constOf(ct)
+			}
 		}
 		addGlobal(cv)
 		g.consts = append(g.consts, cv)
